@@ -11,8 +11,12 @@ Conventions (the ones the library documents / exposes through `as_matrix()`):
   provided, `selfcheck()` compares them); `linear_fermionic_mpo` documents in its source "identity ... from the
   left and Z strings from the right", a_i = I^{(x) i} (x) a (x) Z^{(x)(L-i-1)}  ->  orientation='right'.
 """
+import os
 import re
 import traceback
+# single-threaded BLAS (as vt/check.py sets it for the runner); only effective if numpy is not yet imported
+for _v in ('OMP_NUM_THREADS', 'OPENBLAS_NUM_THREADS', 'MKL_NUM_THREADS'):
+    os.environ.setdefault(_v, '1')
 import numpy as np
 import scipy.sparse as sp
 
@@ -255,6 +259,9 @@ def molecular_coefficients(rng, L, style):
                (rng.standard_normal((L, L)), rng.standard_normal((L, L, L, L)))
         t = t * (rng.random((L, L)) < 0.3)
         v = v * (rng.random((L, L, L, L)) < 0.08)
+        if not t.any() and not v.any():
+            k, l = (int(x) for x in rng.integers(0, L, 2))
+            t[k, l] = 0.75
     elif style == 'symmetric':
         # Hermitian one-body part, two-body part with the symmetries of Coulomb integrals in physicists' notation:
         # v_ijkl = v_jilk = conj(v_klij)
